@@ -32,7 +32,8 @@ OPS_EDITS = ["unknown-axis", "unknown-axis-added", "data-lacks-dim", "data-two-d
              "boundary-unknown-scalar", "boundary-unknown-operated", "boundary-unknown-other", "fill-nonnumeric-scalar", "fill-nonnumeric-mapping",
              "fill-object"]
 UFUNC_EDITS = ["misplaced-input", "extra-input", "missing-input", "axis-entries-extra", "axis-entries-missing", "axis-arity", "unknown-axis",
-               "boundary-unknown-scalar", "position-lacking", "signature-unknown-position-word", "signature-unknown-position-word"]
+               "boundary-unknown-scalar", "position-lacking", "signature-unknown-position-word", "signature-unknown-position-word",
+               "other-component-count"]
 TRANSFORM_EDITS = ["periodic-axis", "nonmonotonic-bins", "repeated-bins", "no-outer", "unknown-axis"]
 METRIC_EDITS = ["unknown-axis", "data-lacks-dim", "data-two-dims", "data-two-dims", "no-metric"]
 
@@ -272,6 +273,12 @@ def run_ufunc(ctx, desc):
         ins2 = [[list(x) for x in arg] for arg in ins]
         ins2[k][0][1] = lacking[0]
         sig2 = c11.render(ins2, outs)
+    elif edit == "other-component-count":
+        # vector partners in the wrong number: one partner (bare dict or one-element list) for several inputs
+        if len(ins) < 2:
+            return
+        oc = {axis[0][0]: args[0]}
+        kw["other_component"] = oc if pick % 2 else [oc]
     elif edit == "signature-unknown-position-word":
         # an unknown position word anywhere in the signature text: in an input, in an output, or in an argument appended
         # after an otherwise complete signature
